@@ -41,6 +41,7 @@ def main(a, meta):
             return 2
         env = goenv()
         env["TMPDIR"] = workdir
+        env["VERIF_TIER"] = a.tier
         if a.replay:
             rf = json.load(open(a.replay))
             args = [binary, "one", json.dumps(rf["scenario"]), str(rf["k"])]
